@@ -82,6 +82,8 @@ func rulesC17(c *Ctx) {
 	c.c17ReconcileComplete()
 	R.Rule("R10", "a refusal by the mint or a failed step is never taken for success: in the wallet, its network client and its storage the error of every call is tested nil, classified or handed on before any return that may report success (sites where continuing is intended are a frozen table)", 70)
 	c.ruleErrorDisciplinePkgs("R10", []string{"wallet", "wallet/*"}, errToleratedWallet, 70)
+	R.Rule("R11", "Melt commits proofs only to a quote that is neither paid nor in flight: selection and submission lie behind 'stored state != PAID' and behind 'stored state != PENDING, or the re-check answered neither PENDING nor PAID'", 3)
+	c.c17MeltOnlyOpenQuote()
 	R.Rule("R3", "balances are whole-bucket sums", 3)
 	R.Rule("R4", "active-keyset refresh writes the mint entry back", 2)
 	R.Rule("R5", "the wallet's fee functions agree with the mint's: one ceil over the summed per-proof ppk of each proof's own keyset (shared with C18.R3)", 2)
@@ -1456,4 +1458,61 @@ func (c *Ctx) c18SendCriticalSection() {
 		}
 	}
 	R.Check("R9", fk, "selection and removal under the wallet mutex", c.P.InstrPos(sel), ok, "two overlapping sends cannot select the same proofs: the mutex is held from before the selection until the function returns", why)
+}
+
+// c17MeltOnlyOpenQuote: R11. Paying a quote a second time (or while the first attempt is in flight) hands the mint
+// more proofs for a debt already settled.
+func (c *Ctx) c17MeltOnlyOpenQuote() {
+	R := c.R
+	f := c.fn("R11", "wallet.(*Wallet).Melt")
+	if f == nil {
+		return
+	}
+	fk := c.P.FuncKey(f)
+	paid, _ := c.P.ConstVal("cashu/nuts/nut05", "Paid")
+	pend, _ := c.P.ConstVal("cashu/nuts/nut05", "Pending")
+	isStored := func(e *Ex) bool {
+		return isField(e, "State") && strings.Contains(e.Args[0].String(), "GetMeltQuoteById")
+	}
+	isRecheck := func(e *Ex) bool {
+		return isField(e, "State") && strings.Contains(e.Args[0].String(), "CheckMeltQuoteState#0(")
+	}
+	ne := func(name string, who func(*Ex) bool, val string) func(ft *Fact) bool {
+		return func(ft *Fact) bool {
+			return ft.Kind == "cmp" && ft.Op.String() == "==" && who(ft.A) && ft.B != nil && ft.B.K == "const" &&
+				((!ft.Pos && isConst(ft.B, val)) || (ft.Pos && !isConst(ft.B, val)))
+		}
+	}
+	storedNotPaid := ne("", isStored, paid)
+	storedNotPending := ne("", isStored, pend)
+	recheckNotPending := ne("", isRecheck, pend)
+	recheckNotPaid := ne("", isRecheck, paid)
+	conds := []*Cond{
+		{Name: "stored state != PAID", Via: func(g *ssa.Function) bool { return c.P.IsNewFunc(g) }, Match: func(ft *Fact, _ *Origins) bool { return storedNotPaid(ft) }},
+		{Name: "stored state != PENDING, or the re-check did not answer PENDING", Via: func(g *ssa.Function) bool { return c.P.IsNewFunc(g) }, Match: func(ft *Fact, _ *Origins) bool {
+			return storedNotPending(ft) || recheckNotPending(ft)
+		}},
+		{Name: "stored state != PENDING, or the re-check did not answer PAID", Via: func(g *ssa.Function) bool { return c.P.IsNewFunc(g) }, Match: func(ft *Fact, _ *Origins) bool {
+			return storedNotPending(ft) || recheckNotPaid(ft)
+		}},
+	}
+	var sites []ssa.CallInstruction
+	for _, g := range c.OpFuncs(f) {
+		for _, ci := range Calls(g) {
+			switch c.P.Describe(ci).Name {
+			case "wallet.(*Wallet).getProofsForAmount", "wallet/client.PostMeltBolt11":
+				sites = append(sites, ci)
+			}
+		}
+	}
+	if len(sites) == 0 {
+		R.Unresolved("R11", "selection / submission in "+fk, "not found")
+		return
+	}
+	for _, s := range sites {
+		for _, cd := range conds {
+			ok, why := c.RequireAt(s, cd)
+			R.Check("R11", fk, c.P.Describe(s).Name+" <= "+cd.Name, c.P.InstrPos(s), ok, "Melt selects and submits proofs only for a quote that is still open", why)
+		}
+	}
 }
